@@ -65,6 +65,9 @@ Table == <<
   \* several devices in the three-field form with the same permissions: each is an entry of its own (the key is the target)
   [n |-> "devices with equal permissions", top |-> FALSE, p |-> <<"devices">>, short |-> L(<<S("/dev/a:/dev/x:rw"), S("/dev/b:/dev/y:rw"), S("/dev/c:/dev/z:rw")>>),
      long |-> L(<<M3("source", S("/dev/a"), "target", S("/dev/x"), "permissions", S("rw")), M3("source", S("/dev/b"), "target", S("/dev/y"), "permissions", S("rw")), M3("source", S("/dev/c"), "target", S("/dev/z"), "permissions", S("rw"))>>)],
+  \* a byte size written as digits only is a decimal number of bytes, leading zeros or not
+  [n |-> "byte size with a leading zero", top |-> FALSE, p |-> <<"mem_limit">>, short |-> S("010"), long |-> I(10)],
+  [n |-> "shm_size with leading zeros", top |-> FALSE, p |-> <<"shm_size">>, short |-> S("0100"), long |-> I(100)],
   [n |-> "labels list with = in the value", top |-> FALSE, p |-> <<"labels">>, short |-> Sq2(S("k=a=b"), S("q==")), long |-> M2("k", S("a=b"), "q", S("="))],
   [n |-> "sysctls list", top |-> FALSE, p |-> <<"sysctls">>, short |-> Sq1(S("net.core.somaxconn=1024")), long |-> M1("net.core.somaxconn", S("1024"))],
   [n |-> "annotations list", top |-> FALSE, p |-> <<"annotations">>, short |-> Sq1(S("k=v")), long |-> M1("k", S("v"))],
